@@ -503,6 +503,96 @@ func sdOneString(out *vk.Out, s []byte) {
 	}
 }
 
+// sdScan: volume mode.  Every string up to maxLen through Add (+ completion of pending packets)
+// and every family's decode, but only rows that show a panic, a packet still pending after its
+// completion frames, or a finished packet with a wrong frame count are emitted (for the Coq
+// oracle to judge), plus one summary row {"suite":"scan-summary","n":...}.
+func sdScan(out *vk.Out, maxLen int, workers int) {
+	var total, finished, pending int64
+	var mu sync.Mutex
+	check := func(c sdCase) {
+		bad := c.Dec == "panic"
+		for _, o := range c.Outs {
+			if o == "panic" {
+				bad = true
+			}
+		}
+		if c.Hdr != nil && int64(len(c.Frames)) != 1+c.Hdr.Att {
+			bad = true
+		}
+		mu.Lock()
+		total++
+		if c.Hdr != nil {
+			finished++
+		} else if n := len(c.Outs); n > 0 && c.Outs[n-1] == "more" {
+			pending++
+			bad = true // the oracle decides whether the wait is legitimate
+		}
+		mu.Unlock()
+		if bad {
+			c.Suite = "scan"
+			out.Put(c)
+		}
+	}
+	one := func(s []byte) {
+		frames := [][]byte{append([]byte{}, s...)}
+		probe := sdRun("scan", frames, 0, "none")
+		if len(probe.Outs) == 1 && probe.Outs[0] == "more" {
+			for i := 0; i < 4; i++ {
+				frames = append(frames, sdFillFrames[i%len(sdFillFrames)])
+			}
+			probe = sdRun("scan", frames, 0, "none")
+		}
+		check(probe)
+		if probe.Hdr != nil {
+			for _, f := range sdFamilies[1:] {
+				check(sdRun("scan", frames, 0, f.name))
+			}
+		}
+	}
+	var wg sync.WaitGroup
+	ch := make(chan []byte, 64)
+	for w := 0; w < workers; w++ {
+		wg.Add(1)
+		go func() {
+			defer wg.Done()
+			for u := range ch {
+				var rec func(s []byte)
+				rec = func(s []byte) {
+					one(s)
+					if len(s) >= maxLen {
+						return
+					}
+					for _, a := range sdAlphabet {
+						rec(append(append([]byte{}, s...), a))
+					}
+				}
+				if len(u) < 2 {
+					one(u)
+				} else {
+					rec(u)
+				}
+			}
+		}()
+	}
+	ch <- []byte{}
+	for _, a := range sdAlphabet {
+		if maxLen >= 1 {
+			ch <- []byte{a}
+		}
+	}
+	if maxLen >= 2 {
+		for _, a := range sdAlphabet {
+			for _, b := range sdAlphabet {
+				ch <- []byte{a, b}
+			}
+		}
+	}
+	close(ch)
+	wg.Wait()
+	out.Put(map[string]any{"suite": "scan-summary", "n": total, "finished": finished, "pending": pending, "maxlen": maxLen})
+}
+
 // ---- grammar-aware mutations
 
 type sdGen struct{ r *vk.Rand }
@@ -750,7 +840,7 @@ func sdCorpus(out *vk.Out) {
 func siodecodeMain(args []string) error {
 	fs := flag.NewFlagSet("siodecode", flag.ExitOnError)
 	seed := fs.Uint64("seed", 1, "")
-	mode := fs.String("mode", "corpus", "corpus|exhaustive|mutate|live")
+	mode := fs.String("mode", "corpus", "corpus|exhaustive|scan|mutate|live")
 	maxLen := fs.Int("maxlen", 3, "max string length (exhaustive)")
 	n := fs.Int("n", 1000, "number of generated cases (mutate)")
 	workers := fs.Int("workers", 8, "")
@@ -767,6 +857,8 @@ func siodecodeMain(args []string) error {
 		sdCorpus(out)
 	case "exhaustive":
 		sdExhaustive(out, *maxLen, *workers)
+	case "scan":
+		sdScan(out, *maxLen, *workers)
 	case "mutate":
 		sdMutate(out, *seed, *n)
 	case "live":
